@@ -119,15 +119,23 @@ Sync(s, ex2, fl2, rec2, hi2, sr, own, sil, hideNow, withUid, cond, extra) ==
                  LET u == Asc(told)[i] IN
                  [k |-> "fetch", n |-> Pos(nview, u), u |-> IF withUid THEN u ELSE 0,
                   f |-> fl2[u] \cup (IF u \in nsrec THEN {"R"} ELSE {})]]
+      \* the command's own FETCH values are evaluated when the response is written, i.e. with the
+      \* session's \Recent set AFTER this synchronisation (a message another session has expunged
+      \* is no longer \Recent in a UID command's own answer)
+      own0  == own
+      ownRe == [i \in 1..Len(own0) |->
+                 IF own0[i].k = "fetch" /\ own0[i].u # 0
+                 THEN [own0[i] EXCEPT !.f = (@ \ {"R"}) \cup (IF own0[i].u \in nsrec THEN {"R"} ELSE {})]
+                 ELSE own0[i]]
       \* add_untagged: a diff FETCH whose number equals an own FETCH's number is merged into it
       mergeOK == "MergeAcross" \in Devs \/ exps = <<>>
       ownNs == {own[i].n : i \in 1..Len(own)}
       ownM  == [i \in 1..Len(own) |->
                  IF mergeOK /\ \E j \in 1..Len(dfet) : dfet[j].n = own[i].n
                  THEN LET j == CHOOSE j \in 1..Len(dfet) : dfet[j].n = own[i].n
-                      IN [own[i] EXCEPT !.f = dfet[j].f,
-                                        !.u = IF dfet[j].u # 0 THEN dfet[j].u ELSE own[i].u]
-                 ELSE own[i]]
+                      IN [ownRe[i] EXCEPT !.f = dfet[j].f,
+                                        !.u = IF dfet[j].u # 0 THEN dfet[j].u ELSE ownRe[i].u]
+                 ELSE ownRe[i]]
       dfetR == IF mergeOK THEN SelectSeq(dfet, LAMBDA r : r.n \notin ownNs) ELSE dfet
   IN /\ view'  = [view  EXCEPT ![s] = nview]
      /\ fkey'  = [fkey  EXCEPT ![s] = nfkey]
